@@ -1,3 +1,7 @@
+// C51 steers common/intervalst's randomized insertion by re-seeding math/rand's global source;
+// since Go 1.24 rand.Seed is a no-op unless this setting is given.
+//
+//go:debug randseednop=0
 package main
 
 import (
